@@ -95,17 +95,31 @@ class Ctx:
         return self.ob(rule, func, False, what, func=func, file=file, construct=construct, node=node, detail=detail, fail=what)
 
     # -- output -----------------------------------------------------------------------
-    def import_rules(self, mod, label: str):
+    _import_stack: list = []
+
+    def import_rules(self, mod, label: str, only=None):
         """Re-run another property's obligations inside this check, as premises of this property: their findings are reported under this
         property with the rule id `<this>.<label>/<theirs>` (nothing is assumed from the other check's last run)."""
+        own = f"sa.rules.{self.prop.lower()}"
+        if mod.__name__ in Ctx._import_stack or mod.__name__ == own or len(Ctx._import_stack) >= 2:
+            return          # (premises import each other: each module runs at most once on a chain, two levels deep)
         sub = Ctx(self.prop, self.prog, tier=self.tier, seed=self.seed, write=False)
-        mod.run(sub)
+        Ctx._import_stack.append(mod.__name__)
+        try:
+            mod.run(sub)
+        finally:
+            Ctx._import_stack.pop()
         sub.check_minima()
+        keep = (lambda r: True) if only is None else (lambda r: any(r == x or r.startswith(x + "/") or r.endswith("/" + x) for x in only))
         for o in sub.obligations:
+            if not keep(o["rule"]):
+                continue
             o2 = dict(o)
             o2["rule"] = f"{self.prop}.{label}/" + o2["rule"]
             self.obligations.append(o2)
         for f in sub.findings:
+            if not keep(f.rule):
+                continue
             f.rule = f"{self.prop}.{label}/" + f.rule
             self.findings.append(f)
         for q in sub.analysed["functions"]:
